@@ -125,8 +125,7 @@ APlan2 ==
             \/ (Related(plan[1], e) /\ e.site # plan[1].site
                 /\ {plan[1].mode, e.mode} \subseteq {"block_alt", "empty_block_alt"})
          /\ <<e.site, e.mode>> # <<plan[1].site, plan[1].mode>> \/ e.mode \in {"before", "after", "semantic_after"}
-         \* a replacement and a removal of the same instruction: the statements do not say which wins
-         /\ ~(e.site = plan[1].site /\ {e.mode, plan[1].mode} \in {{"alternate", "empty_alternate"}, {"block_alt", "empty_block_alt"}})
+         \* (a replacement and a removal of the same instruction are generated in both orders: the last request decides)
          /\ plan' = Append(plan, e)
     /\ UNCHANGED <<body, stk, dead, nop, ncond, done>>
 
